@@ -1495,6 +1495,11 @@ impl<'a> Iterator for DltMessageArgIterator<'a> {
                     // panic!("type_info FIXP not supported yet!");
                     return None;
                 }
+                // aray, trai or stru set? (they change the layout of the argument as well)
+                if type_info & (DLT_TYPE_INFO_ARAY | DLT_TYPE_INFO_TRAI | DLT_TYPE_INFO_STRU) != 0 {
+                    // todo e.g. [Dlt147] number of dimensions, then the entries per dimension, then the data
+                    return None;
+                }
 
                 if type_info & DLT_TYPE_INFO_BOOL != 0 {
                     if len != 1 {
